@@ -40,7 +40,12 @@ META = {
         "return the same atom in all 16 fields - alternate location, insertion code, four-character names, formal charge "
         "included (C10_cif_eq_pdb, C10_cif_eq_pdb_agrees) - and whole atom_site loops with one model or several models "
         "give one record per row in file order (C10_atom_site_single, C10_atom_site_models); the convention hypothesis "
-        "cannot be dropped (C10_mv_ok_needed). No refuted class is left. NOT proved here: charges and radii (the pipeline "
+        "cannot be dropped (C10_mv_ok_needed). cif.read_cif (after fix_c10_r4: the 13 non-coordinate category handlers run "
+        "through _optional_records) returns exactly atom_site's coordinate records whatever those handlers do, return or "
+        "raise a caught exception (C10_read_cif_guarded_atoms), and atom_site stays strict (C10_read_cif_guarded_strict); "
+        "without the helper one raising handler aborts the route (C10_read_cif_handler_raises). The handlers are opaque in "
+        "the model; the harness checks on every generated file that the real read_cif returns and keeps atom_site's records. "
+        "No refuted class is left for the readers of atom_site. NOT proved here: charges and radii (the pipeline "
         "after the readers) - explored by running the real pipeline on both encodings and composed with the ingest/print "
         "models in E2E_CifClean; other versions of mmcif_pdbx are covered only through the convention parameter (one "
         "emulated); values that are literally '.' or '?' (indistinguishable from missing markers) are outside the domain."
@@ -63,6 +68,10 @@ THEOREMS = [
     "C10_mv_ok_needed",
     "C10_atom_site_single",
     "C10_atom_site_models",
+    "C10_read_cif_atoms",
+    "C10_read_cif_handler_raises",
+    "C10_read_cif_guarded_atoms",
+    "C10_read_cif_guarded_strict",
     "C10_guard_nonvacuous",
 ]
 
@@ -897,6 +906,221 @@ def e2e_texts(ctx, ptxt, ctxt, rows, conv, args, run_pipeline, detail):
 
 
 # ---------------------------------------------------------------------------
+# the other categories cif.read_cif processes (header, title, compnd, source, keywds, expdata, author,
+# ssbond, cispep, cryst1, origxn, scalen before atom_site; conect after it).  The property is about the
+# RESULT: whatever a legal mmCIF file holds there must neither change nor abort the atoms.
+
+HANDLERS_PRE = ("header", "title", "compnd", "source", "keywds", "expdata", "author", "ssbond", "cispep", "cryst1", "origxn", "scalen")
+HANDLERS_POST = ("conect",)
+HANDLER_CATS = {
+    "header": ("struct_keywords", "pdbx_database_status", "entry"), "title": ("struct",), "compnd": ("entity",),
+    "source": ("entity_src_gen",), "keywds": ("struct_keywords",), "expdata": ("exptl",), "author": ("audit_author",),
+    "ssbond": ("struct_conn",), "cispep": ("struct_mon_prot_cis",), "cryst1": ("cell", "symmetry"),
+    "origxn": ("database_PDB_matrix",), "scalen": ("atom_sites",), "conect": ("struct_conn", "atom_site"),
+}
+OPTIONAL_IN_CODE = ("entity_src_gen", "struct_conn", "struct_mon_prot_cis")  # handlers return early when these are absent
+
+
+def single_cats():
+    """key-value categories as PDB-archive files have them: {category: [(item, value text)]}"""
+    return {
+        "entry": [("id", "TEST")],
+        "struct_keywords": [("entry_id", "TEST"), ("pdbx_keywords", "'DE NOVO PROTEIN'"), ("text", "'synthetic structure'")],
+        "pdbx_database_status": [("entry_id", "TEST"), ("recvd_initial_deposition_date", "2000-01-01")],
+        "struct": [("entry_id", "TEST"), ("title", "'synthetic structure built from templates'")],
+        "exptl": [("entry_id", "TEST"), ("method", "'X-RAY DIFFRACTION'")],
+        "cell": [("entry_id", "TEST"), ("length_a", "1.000"), ("length_b", "1.000"), ("length_c", "1.000"),
+                 ("angle_alpha", "90.00"), ("angle_beta", "90.00"), ("angle_gamma", "90.00"), ("Z_PDB", "1")],
+        "symmetry": [("entry_id", "TEST"), ("space_group_name_H-M", "'P 1'")],
+        "atom_sites": [("entry_id", "TEST")]
+        + [(f"fract_transf_matrix[{i}][{j}]", "1.000000" if i == j else "0.000000") for i in (1, 2, 3) for j in (1, 2, 3)]
+        + [(f"fract_transf_vector[{i}]", "0.00000") for i in (1, 2, 3)],
+        "database_PDB_matrix": [("entry_id", "TEST")]
+        + [(f"origx[{i}][{j}]", "1.000000" if i == j else "0.000000") for i in (1, 2, 3) for j in (1, 2, 3)]
+        + [(f"origx_vector[{i}]", "0.00000") for i in (1, 2, 3)],
+    }
+
+
+def loop_cats(rng, rows):
+    """loop_ categories: {category: (items, [row values])} + per-category notes on what the rows refer to"""
+    notes = {}
+    cats = {
+        "entity": (["id", "type", "pdbx_description"], [["1", "polymer", "'synthetic peptide'"], ["2", "water", "water"]][: rng.choice([1, 2])]),
+        "audit_author": (["name", "pdbx_ordinal"], [["'Builder, A.'", "1"], ["'Checker, B.'", "2"]][: rng.choice([1, 2])]),
+        "entity_src_gen": (["entity_id", "pdbx_gene_src_scientific_name", "gene_src_common_name", "pdbx_gene_src_ncbi_taxonomy_id"],
+                           [["1", "'Homo sapiens'", "human", "9606"]]),
+    }
+    # struct_conn: partners that exist, that are absent from atom_site (ligand / chain removed, annotation kept),
+    # that exist twice (alt-locs) or in several models
+    items = ["id", "conn_type_id"]
+    for pt in ("ptnr1_", "ptnr2_"):
+        items += [pt + k for k in ("label_asym_id", "label_comp_id", "label_seq_id", "label_atom_id", "auth_asym_id", "auth_comp_id", "auth_seq_id", "symmetry")]
+        items.append("pdbx_" + pt + "PDB_ins_code")
+    items.append("pdbx_dist_value")
+    conn_rows, kinds = [], []
+    arows = [r for r in rows if r["group_PDB"] in ("ATOM", "HETATM")]
+    for n in range(rng.choice([1, 1, 2, 3])):
+        ctype = rng.choice(["disulf", "metalc", "covale", "hydrog"])
+        vals = [f"{ctype}{n + 1}", ctype]
+        for pt in ("ptnr1_", "ptnr2_"):
+            mode = rng.choice(["present", "present", "present", "absent-atom", "absent-atom", "absent-residue"])
+            a = rng.choice(arows) if arows else None
+            if a is None:
+                mode = "absent-residue"
+                a = mkrow("ATOM", "1", "C", "CA", ".", "ALA", "A", "?", "0.000", "0.000", "0.000", "1.00", "0.00", "?", "1", "ALA", "A", "CA")
+            asym, comp, seq, atom = a["auth_asym_id"], eff(a, "comp_id") or "ALA", a["auth_seq_id"], a["label_atom_id"]
+            if mode == "absent-atom":
+                atom = rng.choice(["ZN", "XX", "O9"])
+            elif mode == "absent-residue":
+                comp, seq, atom = rng.choice(["ZN", "NAG", "CYS"]), str(rng.randint(700, 990)), rng.choice(["ZN", "C1", "SG"])
+            kinds.append(mode)
+            vals += [a["label_asym_id"], comp, a.get("label_seq_id", seq), atom, asym, comp, seq, rng.choice(["1_555", "1_555", "2_655"]), "?"]
+        vals.append(rng.choice(["2.03", "2.031", "1.98"]))
+        conn_rows.append(vals)
+    if sum(1 for r in arows if r["label_alt_id"] not in (".", "?")) and "present" in kinds:
+        kinds.append("altloc-rows")
+    if len({r["pdbx_PDB_model_num"] for r in arows}) > 1:
+        kinds.append("several-models")
+    cats["struct_conn"] = (items, conn_rows)
+    notes["struct_conn"] = sorted(set(k for k in kinds if k != "present"))
+    cis_items = ["pdbx_id", "label_comp_id", "label_seq_id", "label_asym_id", "label_alt_id", "pdbx_PDB_ins_code", "auth_comp_id", "auth_seq_id",
+                 "auth_asym_id", "pdbx_label_comp_id_2", "pdbx_label_seq_id_2", "pdbx_label_asym_id_2", "pdbx_PDB_ins_code_2",
+                 "pdbx_auth_comp_id_2", "pdbx_auth_seq_id_2", "pdbx_auth_asym_id_2", "pdbx_PDB_model_num", "pdbx_omega_angle"]
+    cats["struct_mon_prot_cis"] = (cis_items, [["1", "SER", "7", "A", ".", "?", "SER", "7", "A", "PRO", "8", "A", "?", "PRO", "8", "A", "1", "-0.11"]])
+    return cats, notes
+
+
+def gen_other(rng, rows, mode):
+    """-> (text before atom_site, text after it, state {category: 'full'|'category-absent'|'item-absent'|'missing-value'}, notes).
+    mode 'full': every category as in an archive file; 'minimal': only what the code cannot do without... there is no such
+    thing, so: optional-in-code categories dropped; 'mixed': each category independently full / absent / partially filled."""
+    singles = single_cats()
+    loops, notes = loop_cats(rng, rows)
+    state = {}
+    before, after = [], []
+
+    def damage(cat, items):
+        """-> (state, items') for one category in mode mixed"""
+        u = rng.random()
+        if u < 0.55:
+            return "full", items
+        if u < 0.70:
+            return "category-absent", None
+        cand = [i for i, (k, _v) in enumerate(items) if k != "entry_id"]
+        j = rng.choice(cand)
+        if u < 0.85:
+            return "item-absent", [x for i, x in enumerate(items) if i != j]
+        return "missing-value", [(k, (rng.choice(["?", "."]) if i == j else v)) for i, (k, v) in enumerate(items)]
+
+    for cat, items in singles.items():
+        st, it = ("full", items) if mode != "mixed" else damage(cat, items)
+        state[cat] = st
+        if it is not None:
+            before += [f"_{cat}.{k} {v}" for k, v in it] + ["#"]
+    for cat, (items, lrows) in loops.items():
+        if mode == "no-optional" and cat in OPTIONAL_IN_CODE:
+            state[cat] = "category-absent"
+            continue
+        st = "full"
+        if mode == "mixed":
+            st, it = damage(cat, [(k, None) for k in items])
+            if st == "category-absent":
+                state[cat] = st
+                continue
+            if st == "item-absent":
+                keep = [k for k, _ in it]
+                idx = [items.index(k) for k in keep]
+                items, lrows = keep, [[r_[i] for i in idx] for r_ in lrows]
+            elif st == "missing-value":
+                j = rng.randrange(len(items))
+                lrows = [[(rng.choice(["?", "."]) if i == j else v) for i, v in enumerate(r_)] for r_ in lrows]
+        state[cat] = st
+        txt = ["loop_"] + [f"_{cat}.{k}" for k in items] + [" ".join(r_) for r_ in lrows] + ["#"]
+        (after if cat in ("struct_conn", "struct_mon_prot_cis") else before).extend(txt)
+    return "\n".join(before) + "\n", "\n".join(after) + "\n", state, notes
+
+
+def cif_file_text(rows, before, after, absent=()):
+    loop = cif_loop_text(rows, absent)
+    body = loop[loop.index("loop_") :]
+    return "data_TEST\n#\n" + before + body + after
+
+
+def handler_cause(h, state, notes, absent=()):
+    causes = set()
+    for cat in HANDLER_CATS[h]:
+        if cat == "atom_site":
+            causes.update(f"atom_site-without-{k}" for k in absent)
+            continue
+        st = state.get(cat, "full")
+        if st != "full":
+            causes.add(f"{cat}:{st}")
+        causes.update(f"{cat}:{n}" for n in notes.get(cat, ()))
+    return "+".join(sorted(causes)) or "none"
+
+
+OTHERS_STATS = {"absorbed": 0, "absorbed_unreported": 0}
+
+
+def others_oracle(rows, before, after, state, notes, conv, absent=()):
+    """read_cif level, model independent: every handler of read_cif is run on its own on the parsed block (the proviso of
+    C10_read_cif_atoms: no handler raises); then read_cif's ATOM/HETATM/MODEL/ENDMDL records must be those atom_site returns
+    for the same block alone.  -> list of (sig, what, detail)"""
+    from pdb2pqr import cif, pdb
+
+    text = cif_file_text(rows, before, after, absent)
+    out = []
+    import pdbx
+
+    def blocks():
+        b = pdbx.load(_io.StringIO(text))
+        return verbatimize(b) if conv == "verbatim" else b
+
+    raised = {}
+    for h in HANDLERS_PRE + HANDLERS_POST:
+        try:
+            getattr(cif, h)(blocks()[0])
+        except Exception as e:  # noqa: BLE001
+            raised[h] = type(e).__name__
+    try:
+        site = impl_atom_site(blocks()[0])
+    except Exception as e:  # noqa: BLE001
+        return out + [({"site": "cif.atom_site", "condition": f"harness-{type(e).__name__}", "cause": "none"}, "atom_site runner failed", {})]
+    with patched_load(conv):
+        try:
+            plist, rerr = cif.read_cif(_io.StringIO(text))
+            rexc = None
+        except Exception as e:  # noqa: BLE001
+            plist, rerr, rexc = None, None, type(e).__name__
+    if site["exn"] != "-":
+        return out  # atom_site itself rejects the rows (not about the other categories)
+    if rexc is not None:
+        # the route yields nothing: name the handler(s) that raise on this block
+        for h, exc in raised.items():
+            sig = {"site": f"cif.{h}", "condition": f"raises-{exc}", "cause": handler_cause(h, state, notes, absent)}
+            out.append((sig, f"cif.{h} raises {exc} on a legal mmCIF file and cif.read_cif aborts: the mmCIF route yields nothing while the PDB file of the same atoms is read",
+                        {"handler": h, "state": {k: v for k, v in state.items() if v != 'full'}, "notes": notes}))
+        if not raised:
+            out.append(({"site": "cif.read_cif", "condition": f"raises-{rexc}", "cause": "no-handler-raises"}, "read_cif raises although no handler does", {}))
+        return out
+    # read_cif returned; handlers that raise on their own were absorbed (records skipped) - the atoms must be unaffected
+    OTHERS_STATS["absorbed"] += len(raised)
+    OTHERS_STATS["absorbed_unreported"] += sum(1 for h in raised if h not in [str(x) for x in (rerr or [])])
+    got = []
+    for x in plist:
+        if isinstance(x, (pdb.ATOM, pdb.HETATM)):
+            got.append(("A", x.original_text) + rec_tuple(x))
+        elif isinstance(x, pdb.MODEL):
+            got.append(("M", x.original_text, str(x.serial)))
+        elif isinstance(x, pdb.ENDMDL):
+            got.append(("E",))
+    if got != site["recs"]:
+        out.append(({"site": "cif.read_cif", "condition": "atom-records-changed-by-other-categories", "cause": handler_cause("conect", state, notes, absent)},
+                    "the coordinate records read_cif returns are not those of atom_site alone", {"n_read_cif": len(got), "n_atom_site": len(site["recs"])}))
+    return out
+
+
+# ---------------------------------------------------------------------------
 
 
 def load_corpus():
@@ -1106,6 +1330,34 @@ def run(ctx):
                 if not res["agree"]:
                     ctx.fail(res["sig"], res["what"], {"kind": "row", "row": r, "conv": conv, "origin": f"{fn} row {i}", **res["detail"]})
 
+    # the other categories of the file (read_cif level): present / absent / partially filled / missing-value markers,
+    # struct_conn partners that are absent from atom_site, present twice (alt-locs) or in several models
+    nother = (1200 if ctx.thorough else 400) if escalate else (600 if ctx.thorough else 90)
+    for k in range(nother):
+        shape = ctx.rng.choice(["plain", "plain", "altloc", "models"])
+        rows = [gen_row(ctx.rng, ctx.rng.choice([None] * 6 + ["label", "charge"])) for _ in range(ctx.rng.choice([1, 2, 3]))]
+        if shape == "altloc":
+            r0 = dict(rows[0], label_alt_id="A")
+            rows = [r0, dict(r0, label_alt_id="B", id=str(int(r0["id"]) % 99998 + 1), Cartn_x=gen_coord(ctx.rng, False))] + rows[1:]
+        elif shape == "models":
+            rows = rows + [dict(r, pdbx_PDB_model_num="2", Cartn_x=gen_coord(ctx.rng, False)) for r in rows]
+        absent = ()
+        if ctx.rng.random() < 0.15:
+            absent = tuple(sorted(ctx.rng.sample(list(ALLOWED_ABSENT), ctx.rng.choice([1, 2]))))
+        if not all(expressible(r, absent) and numeric(r) for r in rows):
+            ctx.evaluated("outside-domain", False)
+            continue
+        mode = ["full", "no-optional", "mixed"][k % 3]
+        before, after, state, notes = gen_other(ctx.rng, rows, mode)
+        for conv in CONVS:
+            res = others_oracle(rows, before, after, state, notes, conv, absent)
+            ctx.evaluated(("others", conv, mode, shape, absent, tuple(sorted((c_, s_) for c_, s_ in state.items() if s_ != "full")), tuple(notes.get("struct_conn", ()))), True)
+            ctx.count(f"others:{conv}:{mode}:" + ("ok" if not res else "fail"))
+            for sig, what, det in res:
+                ctx.count(f"others:{conv}:{sig['site']}:{sig['condition']}")
+                ctx.fail(sig, what, {"kind": "others", "rows": rows, "absent": list(absent), "before": before, "after": after, "state": state,
+                                     "notes": notes, "conv": conv, **det})
+
     # builder structures, both encodings, through io.get_molecule and the whole pipeline
     t0 = time.time()
     nst = 30 if ctx.thorough else (15 if escalate else 8)
@@ -1129,6 +1381,35 @@ def run(ctx):
             if res is not None:
                 sig, what, det = res
                 ctx.fail(sig, what, {"kind": "structure", **det})
+    # the same structures with the other categories of an archive file (struct_conn to absent partners included),
+    # and with damaged ones: the result must not change, and nothing may abort
+    for i, st in enumerate(structs):
+        rows = atoms_to_rows(st["atoms"])
+        for mode in (["full", "mixed"] if i % 2 == 0 else ["no-optional", "full"]):
+            conv = CONVS[(i + (mode == "mixed")) % 2]
+            before, after, state, notes = gen_other(ctx.rng, rows, mode)
+            res = others_oracle(rows, before, after, state, notes, conv)
+            ctx.evaluated(("e2e-others", st["variant"], tuple(st["seq"]), conv, mode), True)
+            for sig, what, det in res:
+                ctx.fail(sig, what, {"kind": "others", "rows": rows, "absent": [], "before": before, "after": after, "state": state, "notes": notes, "conv": conv, **det})
+            if res:
+                ctx.count(f"e2e-others:{conv}:{mode}:handler-raises")
+                continue
+            from harness import builder as B
+
+            ptxt = B.to_pdb(st["atoms"], serial_start=None, ter=True)
+            ctxt = cif_file_text(rows, before, after)
+            args = [f"--ff={ffs[i % len(ffs)]}", "--keep-chain"]
+            try:
+                r2 = e2e_texts(ctx, ptxt, ctxt, rows, conv, args, True, {"variant": st["variant"] + "+others:" + mode, "seq": st["seq"]})
+            except Exception as e:  # noqa: BLE001
+                ctx.notes.append(f"end-to-end (others) harness error: {e!r}")
+                continue
+            ctx.count(f"e2e-others:{conv}:{mode}:" + ("agree" if r2 is None else "differ:" + r2[0]["condition"]))
+            if r2 is not None:
+                ctx.fail(r2[0], r2[1], {"kind": "structure", **r2[2]})
+    ctx.count("others:handler-raises-absorbed-by-read_cif", OTHERS_STATS["absorbed"])
+    ctx.count("others:absorbed-but-not-in-error-list", OTHERS_STATS["absorbed_unreported"])
     ctx.count("e2e:wall_s", int(time.time() - t0))
 
     # ---- evidence ---------------------------------------------------------
@@ -1173,6 +1454,13 @@ def replay(ctx, data):
             return 0
         print("replay: FAILS:", res["what"], "| signature:", json.dumps(res["sig"]), "|", json.dumps(res["detail"])[:700])
         return 1
+    if case.get("kind") == "others":
+        res = others_oracle(case["rows"], case["before"], case["after"], case["state"], case["notes"], case["conv"], tuple(case.get("absent", ())))
+        for sig, what, _det in res:
+            print("replay: FAILS:", what, "|", json.dumps(sig))
+        if not res:
+            print("replay: passes (no handler raises; read_cif's coordinate records are atom_site's)")
+        return 1 if res else 0
     if case.get("kind") == "models":
         res = multi_oracle(case["rows"], case["conv"])
         print("replay:", "FAILS: " + res[1] + " | " + json.dumps(res[0]) if res else "passes")
